@@ -47,6 +47,14 @@ R13 _MediaRange.parse() is evaluated (concrete interpreter _ParseModel) on every
     ordered subset of the parameter names {a, q, b}: the params slot of the
     range built is the parsed mapping minus exactly the key 'q' - parameters
     written after q take part in matching like the others
+R19 negotiation is a function of the CURRENT Accept header: the reads closure
+    of Request.accept / client_accepts() / client_prefers() of both flavours
+    (properties and methods of the class looked through, R7 likewise looks
+    through an argument-less same-class helper) contains a read of the
+    request's header table and no attribute that some member of the class
+    assigns from that table (a memo slot filled on first access, a snapshot
+    taken by __init__); the `_cached_*` attributes are inventoried against
+    the tabled memoised accessors (MEMOISED_ACCESSORS)
 
 R4 also decides the escape set of the resolver closure (through the bridge
 helper _best_match and mediatypes.best_match): only HTTPUnsupportedMediaType
@@ -1942,9 +1950,75 @@ def _const_eval_return(f: Func, cfg, path: List[int]):
     return None if last.ast.value is None else ev(last.ast.value)
 
 
+_ASCII_KEEPING = ('lower', 'upper', 'casefold', 'strip', 'lstrip', 'rstrip', 'title', 'capitalize', 'swapcase')
+
+
+def _ascii_kept(e, pn: str) -> bool:
+    """`e` is the parameter `pn` under str methods that map ASCII text to ASCII text"""
+    if isinstance(e, ast.Name):
+        return e.id == pn
+    if isinstance(e, ast.Call) and isinstance(e.func, ast.Attribute) and not e.keywords:
+        if e.func.attr in _ASCII_KEEPING and not e.args:
+            return _ascii_kept(e.func.value, pn)
+        if e.func.attr == 'replace' and len(e.args) == 2 and all(isinstance(a, ast.Constant) and isinstance(a.value, str) and a.value.isascii()
+                                                                 for a in e.args):
+            return _ascii_kept(e.func.value, pn)
+    return False
+
+
+def _constant_name_encodes(p) -> Dict[Tuple[str, str], str]:
+    """Checked exemption for the escape summary of the negotiators (DESIGN 1.3 (7)): a strict `<x>.encode(<codec>)` inside
+    a member of the request class is exempt when <x> is a parameter of that member (under ASCII-preserving str methods,
+    never re-bound) and EVERY call of the member within the negotiation closure passes an ASCII str constant for it -
+    `self.get_header('Accept')` encodes the header NAME, not the client's header value."""
+    out: Dict[Tuple[str, str], str] = {}
+    for _tag, cq in REQUEST_FLAVOURS:
+        if cq not in p.classes:
+            continue
+        H = _HeaderLiveness(None, p, cq)
+        funcs: List[Func] = []
+        for name in sorted(NEGOTIATORS):
+            f = p.lookup_method(cq, name)
+            if f is None:
+                continue
+            try:
+                for g in H.closure(f)[2]:
+                    if not any(g is x for x in funcs):
+                        funcs.append(g)
+            except UnknownIdiom:
+                return {}
+        sites: Dict[str, List[Tuple[Func, ast.Call, Func]]] = {}
+        for g in funcs:
+            sn = _first_param(g)
+            for c in walk_self(g.node):
+                if isinstance(c, ast.Call) and isinstance(c.func, ast.Attribute) and isinstance(c.func.value, ast.Name) and c.func.value.id == sn:
+                    h = p.lookup_method(cq, c.func.attr)
+                    if h is not None and any(h is x for x in funcs):
+                        sites.setdefault(h.qual, []).append((g, c, h))
+        for hq, ss in sorted(sites.items()):
+            h = ss[0][2]
+            params = _param_names(h)
+            for i, pn in enumerate(params):
+                vals = []
+                for g, c, _h in ss:
+                    if any(isinstance(a, ast.Starred) for a in c.args) or any(k.arg is None for k in c.keywords):
+                        vals.append(UNKNOWN)
+                        continue
+                    a = c.args[i] if i < len(c.args) else next((k.value for k in c.keywords if k.arg == pn), None)
+                    vals.append(p.fold(g.module, a, None, g) if a is not None else UNKNOWN)
+                if not vals or not all(isinstance(v, str) and v.isascii() for v in vals) or _assignments(h.node, pn):
+                    continue
+                for n in walk_self(h.node):
+                    if isinstance(n, ast.Call) and isinstance(n.func, ast.Attribute) and n.func.attr == 'encode' and _ascii_kept(n.func.value, pn):
+                        out[(h.qual, ' '.join(short(n, 200).split()))] = \
+                            'encodes the parameter `%s`, an ASCII constant (%s) at every call within the negotiation closure' % (
+                                pn, ', '.join(sorted({repr(v) for v in vals})))
+    return out
+
+
 def r5_client_negotiation(run):
     p = run.project
-    E = _Escape(p)
+    E = _Escape(p, site_exempt=_constant_name_encodes(p))
     want = {'client_accepts': False, 'client_prefers': None}
     escaped: Dict[str, bool] = {}
     for cq in ('falcon.request.Request', 'falcon.asgi.request.Request'):
@@ -3570,12 +3644,31 @@ def r7_resolve_by_content_type(run):
         forms = []
         flagged = False
         for q in (wq, aq):
-            f = p.func(q)
-            run.use(f)
-            calls = [c for c in walk_self(f.node) if isinstance(c, ast.Call) and isinstance(c.func, ast.Attribute) and c.func.attr == RESOLVER]
-            if not calls:
+            f0 = p.func(q)
+            run.use(f0)
+            sites = [(f0, c) for c in walk_self(f0.node) if isinstance(c, ast.Call) and isinstance(c.func, ast.Attribute) and c.func.attr == RESOLVER]
+            # the resolution step may live in an argument-less method of the same class called on `self` (the same
+            # object, so `self.content_type` / `self.options` there are the ones of this message): look through it
+            a0 = f0.node.args.posonlyargs + f0.node.args.args
+            oc0 = func_owner_class(f0)
+            if a0 and oc0 is not None:
+                for hc in walk_self(f0.node):
+                    if isinstance(hc, ast.Call) and isinstance(hc.func, ast.Attribute) and isinstance(hc.func.value, ast.Name) \
+                            and hc.func.value.id == a0[0].arg:
+                        g = p.callee(f0, hc)
+                        if isinstance(g, Func) and g is not f0 and func_owner_class(g) is not None and not g.is_property() \
+                                and p.is_subclass(oc0.qual, func_owner_class(g).qual) is True:
+                            gcalls = [c for c in walk_self(g.node) if isinstance(c, ast.Call) and isinstance(c.func, ast.Attribute)
+                                      and c.func.attr == RESOLVER]
+                            if gcalls:
+                                ga = g.node.args
+                                if hc.args or hc.keywords or len(ga.posonlyargs + ga.args) != 1 or ga.vararg or ga.kwarg or ga.kwonlyargs:
+                                    raise UnknownIdiom('%s: the resolver is asked by %s, which is handed arguments' % (q, g.qual))
+                                run.use(g)
+                                sites += [(g, c) for c in gcalls if not any(c is c2 for _g, c2 in sites)]
+            if not sites:
                 raise AnchorError('%s: no call of <handlers>.%s(...)' % (q, RESOLVER))
-            for c in calls:
+            for f, c in sites:
                 recv = _norm_chain(f, c.func.value)
                 if recv is None or not recv.endswith('.' + HANDLERS_ATTR):
                     raise UnknownIdiom('%s: receiver of %s' % (q, short(c, 80)))
@@ -5996,6 +6089,9 @@ def check(run):
              'for `initial is None` (never by truthiness); copy() / __copy__ hand the live data to that constructor', floor=4)
     run.rule('R18', _safe(r18_cut_outside_quotes), 'header text is cut at , / ; only outside quoted strings: plain split/partition only under a dominating '
              '`\'"\' not in text` test; the splitter\'s character loop is equivalent to the RFC 9110 quoted-string reader (finite-domain evaluation)', floor=2)
+    run.rule('R19', _safe(r19_negotiation_reads_live_header), 'Request.accept / client_accepts() / client_prefers() of both flavours are computed from the '
+             "request's header table on every call: no attribute they read is a stored copy of a header value; the _cached_* attributes are the "
+             'tabled memoised accessors', floor=20)
 
 
 # ---------------------------------------------------------------------------
@@ -6963,3 +7059,281 @@ def r18_cut_outside_quotes(run):
                  runtime_witness=_R18_WITNESS_A + '; or \'a/b;p="x\\\\",y", c/d\' is cut inside the quoted value')
     run.extra['c11_r18'] = {'splitter': g.qual, 'state_variables': sorted(init), 'product_states': len(seen)}
     return n_ob
+
+
+# ---------------------------------------------------------------------------
+# R19 negotiation is a function of the CURRENT Accept header (added after
+# seeded change s10-c11-1: WSGI Request.accept answered from a `_cached_accept`
+# slot filled on the first access; the ASGI twin did not)
+# ---------------------------------------------------------------------------
+#
+# "For every Accept header and candidate list ..." quantifies over the header
+# the request carries when client_accepts() / client_prefers() (and the error
+# serializer, through them) are asked.  The header lives in the request's header
+# table - the WSGI environ, the ASGI header table - which an override
+# middleware (`?format=json`, URL suffix) rewrites in place; so the answer is
+# computed from that table on every call.  The rule takes the READS CLOSURE of
+# the `accept` accessor and of the two negotiators of each flavour (the
+# `self.<x>` reads of the body, properties and methods of the class looked
+# through): no instance attribute in the closure is a stored copy of a header
+# value - an attribute some effective member of the class (the accessor itself,
+# __init__, ...) assigns from an expression that reads the header table.  The
+# `_cached_*` attributes of the two classes are inventoried against the table
+# of today's memoised accessors; an attribute outside the table that
+# negotiation does not read is an unknown idiom, not a violation.
+
+REQUEST_FLAVOURS = (('WSGI', 'falcon.request.Request'), ('ASGI', 'falcon.asgi.request.Request'))
+# the request's header tables (what a middleware rewrites to override a header)
+HEADER_TABLES = {'env': 'the WSGI environ', '_asgi_headers': 'the ASGI header table', 'scope': 'the ASGI connection scope'}
+MEMO_PREFIX = '_cached_'
+# Frozen table: the accessors memoised per request (attribute `_cached_<name>`), one reason each: all of them are
+# derived views of request data that is fixed once the request object exists, and none is an input of negotiation.
+MEMOISED_ACCESSORS = {
+    'access_route': 'list built once from the forwarding headers and the remote address (documented as computed on first access)',
+    'forwarded': 'the parsed Forwarded header elements (parsed once)',
+    'forwarded_prefix': 'URL reconstruction from forwarded scheme/host and the root path',
+    'forwarded_uri': 'URL reconstruction from forwarded scheme/host and the relative URI',
+    'headers': 'the copy of the raw headers handed to the application',
+    'headers_lower': 'the lower-cased copy of the raw headers handed to the application',
+    'prefix': 'URL reconstruction from scheme, netloc and root path',
+    'relative_uri': 'URL reconstruction from root path, path and query string',
+    'uri': 'URL reconstruction from scheme, netloc and the relative URI',
+    'if_match': 'the parsed ETag list of If-Match',
+    'if_none_match': 'the parsed ETag list of If-None-Match',
+}
+_R19_WITNESS = "req.client_accepts_json (first read of req.accept); a format-override middleware sets env['HTTP_ACCEPT'] = 'application/xml;q=0.9, " \
+               "text/html;q=0'; req.client_prefers(('text/html', 'application/xml')) -> 'text/html', client_accepts('text/html') -> True: " \
+               'the answers are those of the header first seen, not of the header the request carries'
+
+
+def _first_param(f: Func) -> Optional[str]:
+    a = f.node.args.posonlyargs + f.node.args.args
+    return a[0].arg if a else None
+
+
+class _HeaderLiveness:
+    def __init__(self, run, p, cq: str):
+        self.run, self.p, self.cq = run, p, cq
+        self.members: List[Func] = []
+        for k in p.mro(cq):
+            c = p.classes.get(k)
+            if c is None:
+                continue
+            for m in list(c.methods.values()) + list(c.accessors.values()):
+                if m.name in c.methods and c.methods[m.name] is m and p.lookup_method(cq, m.name) is not m:
+                    continue            # overridden: not an effective member
+                self.members.append(m)
+        self._derived: Dict[str, Optional[Tuple[Func, ast.AST]]] = {}
+
+    # -- reads closure -----------------------------------------------------
+    def closure(self, f: Func):
+        """(data attribute reads/stores {attr: [(func, node)]}, header table reads [(func, node)], functions looked at)"""
+        reads: Dict[str, List[Tuple[Func, ast.AST]]] = {}
+        tables: List[Tuple[Func, ast.AST]] = []
+        seen: List[Func] = []
+
+        def visit(g: Func, depth: int):
+            if any(g is x for x in seen):
+                return
+            if depth > 4:
+                raise UnknownIdiom('%s: the members read by negotiation nest too deeply (%s)' % (f.qual, g.qual))
+            seen.append(g)
+            sn = _first_param(g)
+            for n in walk_self(g.node):
+                if isinstance(n, ast.Attribute) and isinstance(n.value, ast.Name) and n.value.id == sn:
+                    if n.attr in HEADER_TABLES:
+                        tables.append((g, n))
+                        continue
+                    m = self.p.lookup_method(self.cq, n.attr)
+                    if m is not None and isinstance(n.ctx, ast.Load):
+                        visit(m, depth + 1)
+                    elif m is None:
+                        reads.setdefault(n.attr, []).append((g, n))
+        visit(f, 0)
+        return reads, tables, seen
+
+    # -- is an attribute a stored copy of a header value? ---------------------
+    def _table_aliases(self, m: Func) -> Set[str]:
+        """locals / parameters of `m` that ARE a header table (`self.env = env`)"""
+        sn = _first_param(m)
+        out = set()
+        for n in walk_self(m.node):
+            if isinstance(n, ast.Assign) and isinstance(n.value, ast.Name):
+                for t in n.targets:
+                    if isinstance(t, ast.Attribute) and isinstance(t.value, ast.Name) and t.value.id == sn and t.attr in HEADER_TABLES:
+                        out.add(n.value.id)
+        return out
+
+    def touches_table(self, m: Func, e, aliases: Set[str], depth=0, seen=()) -> bool:
+        if e is None or depth > 8:
+            return False
+        sn = _first_param(m)
+        for x in ast.walk(e):
+            if isinstance(x, ast.Attribute) and isinstance(x.value, ast.Name) and x.value.id == sn:
+                if x.attr in HEADER_TABLES:
+                    return True
+                g = self.p.lookup_method(self.cq, x.attr)
+                if g is not None and g is not m:
+                    try:
+                        if self.closure(g)[1]:
+                            return True
+                    except UnknownIdiom:
+                        return True
+            elif isinstance(x, ast.Name) and isinstance(x.ctx, ast.Load):
+                if x.id in aliases:
+                    return True
+                if x.id in seen:
+                    continue
+                for st, v in _assignments(m.node, x.id):
+                    src = v
+                    if src is None and isinstance(st, (ast.For, ast.AsyncFor)):
+                        src = st.iter
+                    elif src is None and isinstance(st, ast.Assign):
+                        src = st.value
+                    if src is not None and self.touches_table(m, src, aliases, depth + 1, seen + (x.id,)):
+                        return True
+        return False
+
+    def header_copy(self, attr: str) -> Optional[Tuple[Func, ast.AST]]:
+        """(member, store statement) when some effective member assigns `self.<attr>` from the header table, else None"""
+        if attr in self._derived:
+            return self._derived[attr]
+        self._derived[attr] = None
+        for m in self.members:
+            sn = _first_param(m)
+            if sn is None:
+                continue
+            aliases = self._table_aliases(m)
+            for n in walk_self(m.node):
+                tgts, v = [], None
+                if isinstance(n, ast.Assign):
+                    tgts, v = [x for t in n.targets for x in (t.elts if isinstance(t, (ast.Tuple, ast.List)) else [t])], n.value
+                elif isinstance(n, (ast.AnnAssign, ast.AugAssign)) and n.value is not None:
+                    tgts, v = [n.target], n.value
+                elif isinstance(n, ast.NamedExpr):
+                    tgts, v = [n.target], n.value
+                if any(isinstance(t, ast.Attribute) and isinstance(t.value, ast.Name) and t.value.id == sn and t.attr == attr for t in tgts):
+                    if self.touches_table(m, v, aliases):
+                        self._derived[attr] = (m, n)
+                        return self._derived[attr]
+                    # a container stored empty and filled afterwards (`headers = self._cached_headers = {}` ...
+                    # `headers[name] = value`): the fills through the attribute or a co-bound local count as stores
+                    names = {t.id for t in tgts if isinstance(t, ast.Name)} | ({v.id} if isinstance(v, ast.Name) else set())
+                    fill = self._fill_from_table(m, sn, attr, names, aliases)
+                    if fill is not None:
+                        self._derived[attr] = (m, fill)
+                        return self._derived[attr]
+        return None
+
+    _FILLERS = ('append', 'extend', 'insert', 'add', 'update', 'setdefault', '__setitem__')
+
+    def _fill_from_table(self, m: Func, sn: str, attr: str, names: Set[str], aliases: Set[str]):
+        def is_box(e) -> bool:
+            return (isinstance(e, ast.Name) and e.id in names) or \
+                (isinstance(e, ast.Attribute) and isinstance(e.value, ast.Name) and e.value.id == sn and e.attr == attr)
+
+        for n in walk_self(m.node):
+            if isinstance(n, (ast.Assign, ast.AugAssign)):
+                tgts = n.targets if isinstance(n, ast.Assign) else [n.target]
+                if any(isinstance(t, ast.Subscript) and is_box(t.value) for t in tgts) and self.touches_table(m, n.value, aliases):
+                    return n
+            elif isinstance(n, ast.Call) and isinstance(n.func, ast.Attribute) and n.func.attr in self._FILLERS and is_box(n.func.value):
+                if any(self.touches_table(m, a, aliases) for a in list(n.args) + [k.value for k in n.keywords]):
+                    return n
+        return None
+
+    # -- the `_cached_*` inventory ------------------------------------------------
+    def memo_attrs(self) -> Dict[str, str]:
+        """`_cached_*` attribute -> where it is declared (slot / class attribute / store), over the MRO"""
+        out: Dict[str, str] = {}
+        for k in self.p.mro(self.cq):
+            c = self.p.classes.get(k)
+            if c is None:
+                continue
+            slots = c.attrs.get('__slots__')
+            if slots is not None:
+                v = self.p.fold(c.module.name, slots, c)
+                if v is UNKNOWN or isinstance(v, (str, bytes)) or not all(isinstance(x, str) for x in v):
+                    raise UnknownIdiom('%s.__slots__ does not fold to a sequence of names' % k)
+                for x in v:
+                    if x.startswith(MEMO_PREFIX):
+                        out.setdefault(x, '%s.__slots__' % k)
+            for a in c.attrs:
+                if a.startswith(MEMO_PREFIX):
+                    out.setdefault(a, 'class attribute of %s' % k)
+            for st in c.node.body:
+                if isinstance(st, ast.AnnAssign) and isinstance(st.target, ast.Name) and st.target.id.startswith(MEMO_PREFIX):
+                    out.setdefault(st.target.id, 'class attribute of %s' % k)
+        for m in self.members:
+            sn = _first_param(m)
+            for n in walk_self(m.node):
+                if isinstance(n, ast.Attribute) and isinstance(n.ctx, ast.Store) and isinstance(n.value, ast.Name) and n.value.id == sn \
+                        and n.attr.startswith(MEMO_PREFIX):
+                    out.setdefault(n.attr, 'stored by %s' % m.qual)
+        return out
+
+
+def r19_negotiation_reads_live_header(run):
+    """Request.accept / client_accepts() / client_prefers() of both flavours answer from the request's header table on
+    every call: no attribute they read is a stored copy of a header value.  W: read req.accept once, let a
+    format-override middleware rewrite env['HTTP_ACCEPT'], negotiate again -> the answer is that of the old header."""
+    p = run.project
+    reported: Set[Tuple[str, str]] = set()
+    negotiation_attrs: Set[str] = set()
+    inventories = []
+    for tag, cq in REQUEST_FLAVOURS:
+        p.cls(cq)
+        H = _HeaderLiveness(run, p, cq)
+        acc = p.lookup_method(cq, ACCEPT_ATTR)
+        if acc is None or not acc.is_property():
+            raise AnchorError('%s.%s: property not found' % (cq, ACCEPT_ATTR))
+        entries = [(ACCEPT_ATTR, acc)]
+        for name in sorted(NEGOTIATORS):
+            f = p.lookup_method(cq, name)
+            if f is None:
+                raise AnchorError('%s.%s not found' % (cq, name))
+            entries.append((name, f))
+        for name, f in entries:
+            reads, tables, funcs = H.closure(f)
+            for g in funcs:
+                run.use(g)
+            if name != ACCEPT_ATTR and not any(g is acc for g in funcs):
+                raise UnknownIdiom('%s %s.%s does not read the header through self.%s' % (tag, cq, name, ACCEPT_ATTR))
+            if not tables and not any(H.header_copy(a) is not None for a in reads):
+                raise AnchorError('%s %s.%s: no read of the request header table (%s) found in it or in the members it reads' % (
+                    tag, cq, name, ' / '.join('self.' + t for t in sorted(HEADER_TABLES))))
+            bad = 0
+            for attr in sorted(reads):
+                negotiation_attrs.add(attr)
+                src = H.header_copy(attr)
+                if src is None:
+                    continue
+                bad += 1
+                g, node = reads[attr][0]
+                if (g.qual, attr) in reported:
+                    continue
+                reported.add((g.qual, attr))
+                run.fail('%s: the Accept header is taken from the request header table on every call - `self.%s` is a copy of a header value '
+                         'stored by %s (`%s`), so negotiation keeps answering for the header first seen' % (name, attr, src[0].qual, short(src[1], 70)),
+                         g, 'self.%s' % attr, where=g.loc(node),
+                         witness=['%s reads self.%s' % (x.qual, attr) for x, _n in reads[attr][:3]] + ['%s: %s' % (src[0].loc(src[1]), short(src[1], 90))],
+                         runtime_witness=_R19_WITNESS)
+            if not bad:
+                run.ok('%s %s: computed from the request header table (%s) on every call; no attribute read on the way is a stored copy of a '
+                       'header value' % (tag, name, ', '.join(sorted({'self.' + n.attr for _g, n in tables}))), f.loc(), '%s %s' % (tag, name))
+        inventories.append((tag, cq, H, H.memo_attrs()))
+    # the memoised accessors are the tabled ones
+    for tag, cq, H, memo in inventories:
+        if not memo:
+            raise AnchorError('%s: no %s* attribute found' % (cq, MEMO_PREFIX))
+        for a in sorted(memo):
+            name = a[len(MEMO_PREFIX):]
+            if a in negotiation_attrs:
+                if H.header_copy(a) is None:
+                    raise UnknownIdiom('%s: negotiation reads the memo attribute self.%s, whose provenance the rule does not read' % (cq, a))
+                continue            # reported above
+            if name not in MEMOISED_ACCESSORS:
+                raise UnknownIdiom('%s: memo attribute %s (%s) is outside the tabled set of memoised accessors; negotiation does not read it as far '
+                                   'as the rule sees' % (cq, a, memo[a]))
+            run.ok('%s: the memoised accessor `%s` is a tabled one (%s) and is not read by negotiation' % (tag, name, MEMOISED_ACCESSORS[name]),
+                   p.cls(cq).loc(), '%s %s' % (tag, a))
